@@ -3,7 +3,7 @@
    compiling; checks/c10.py then evaluates the same checker row by row to name the culprit. *)
 From Coq Require Import String List Bool Arith.
 From CF Require Import Model.Tables Model.TableSem Model.Features.
-From CF Require Import Proofs.TableProofs Proofs.FactsDispatch Proofs.FactsSafeSlots Proofs.FeatureLemmas.
+From CF Require Import Proofs.TableProofs Proofs.FactsDispatch Proofs.FactsSafeSlots Proofs.FeatureLemmas Proofs.FeatureGeneric.
 From CF Require Import Gen.GenExports Gen.GenSafe Gen.GenMacros Gen.GenDispatch Gen.GenFeatures.
 Import ListNotations.
 Open Scope string_scope.
@@ -84,14 +84,7 @@ Qed.
 Lemma C10_nofma_proof :
   forall x, In x exports -> e_reg x = Avx2 ->
   forall i, In i (reach_intr_export feature_graph x) -> ~ In "fma" (closure (intr_req feature_graph i)).
-Proof.
-  intros x Hx Hr i Hi Hfma. pose proof nofma_reflect as H. unfold nofma_ok, exports_of in H.
-  rewrite forallb_forall in H.
-  assert (Hin : In x (filter (fun e => reg_eqb (e_reg e) Avx2) exports))
-    by (apply filter_In; split; [exact Hx|rewrite Hr; reflexivity]).
-  specialize (H x Hin). rewrite forallb_forall in H. specialize (H i Hi).
-  rewrite (In_mem_string _ _ Hfma) in H. discriminate H.
-Qed.
+Proof. exact (nofma_ok_sound feature_graph exports nofma_reflect). Qed.
 
 (* No safe call can need a missing extension: whichever link of the macro's chain fires — for every safe
    routine, form, build configuration, set of supplied slots and machine — everything the routine it invokes
@@ -105,21 +98,8 @@ Lemma C10_dispatch_proof :
     slot_export exports m s f x = Some e ->
     forall ft, In ft (need_export feature_graph e) -> avail ft = true.
 Proof.
-  intros s Hs m f bc avail sup x e Hm Hfm Hsel Hse ft Hft.
-  destruct (C09_slots_proof s Hs) as [m' [k [Hfm' [_ Hslots]]]].
-  rewrite Hfm in Hfm'. injection Hfm' as <-.
-  destruct (Hslots f) as [_ [sf [Hsf [_ Hd]]]].
-  unfold slot_export in Hse. rewrite Hsf in Hse.
-  destruct (find (fun d => slot_eqb (ds_slot d) x) (sf_dispatch sf)) as [d|] eqn:Ed; [|discriminate].
-  apply find_some in Ed. destruct Ed as [Hdin Hdx]. apply slot_eqb_eq in Hdx.
-  destruct (Hd d Hdin) as [n [e' [Hn [He' [_ [_ Hreg]]]]]].
-  rewrite Hn in Hse. rewrite He' in Hse. injection Hse as ->.
-  assert (Hine : In e exports) by (unfold find_export in He'; apply find_some in He'; tauto).
-  destruct (select_chain_some _ _ _ _ _ Hsel) as [c [Hc [Hcx [_ Hg]]]].
-  assert (Hr : reg_in_slot (e_reg e) (ce_slot c) = true)
-    by (rewrite Hreg, Hcx, Hdx; apply reg_in_allowed).
-  pose proof (dispatch_ok_sound _ _ _ _ dispatch_reflect e c (bc_arch bc) Hine Hc Hr ft Hft) as Hin.
-  exact (tested_entry_avail pred_defs bc avail c Hm Hg (bc_arch bc) eq_refl ft Hin).
+  exact (dispatch_generic feature_graph pred_defs dispatch_chain exports safe_entries safe_macros
+           C09_slots_proof dispatch_reflect).
 Qed.
 
 (* The same, phrased with the specification of the selection (C09_chain). *)
@@ -147,19 +127,14 @@ Proof. vm_compute. reflexivity. Qed.
 Lemma chain_guards_reflect : chain_guards_spec_ok dispatch_chain = true.
 Proof. vm_compute. reflexivity. Qed.
 
-Lemma chain_guard_is_spec c p :
-  In c dispatch_chain -> guard_spec (ce_slot c) p = forallb (pout p) (ce_guard c).
-Proof.
-  intros Hc. pose proof (forallb_In _ _ chain_guards_reflect c Hc) as H.
-  pose proof (forallb_In _ _ H p (in_all_pouts p)) as E. apply Bool.eqb_prop in E. exact E.
-Qed.
+
 
 (* Every predicate of a link's guard is compiled wherever the link is (same cfg in the source); the cfgs mention
    only the architecture and cargo features, so sixteen configurations cover every build. *)
-Lemma guard_preds_compiled bc c x d :
-  In c dispatch_chain -> In x (ce_guard c) -> eval_cfg bc (ce_cfg c) = true ->
-  find (fun d => pred_eqb (pd_pred d) x) pred_defs = Some d -> eval_cfg bc (pd_cfg d) = true.
+Lemma guard_preds_compiled : guards_compiled_stmt pred_defs dispatch_chain.
 Proof.
+  intros bc c x d.
+
   intros Hc Hx Hcfg Hd. destruct bc as [a n sd tf].
   cbn [In dispatch_chain] in Hc.
   repeat (destruct Hc as [<-|Hc]; [
@@ -179,18 +154,6 @@ Lemma C09_guards_proof :
         (forall f, In f (need_slot feature_graph exports (ce_slot c)) -> avail f = true) ->
         guard_spec (ce_slot c) (eval_pouts pred_defs bc avail) = true).
 Proof.
-  intros bc avail Hm c Hc Hcfg. rewrite (chain_guard_is_spec c _ Hc). split.
-  - intros Hg f Hf.
-    pose proof (forallb_In _ _ slots_need_reflect c Hc) as H. cbv zeta in H.
-    pose proof (forallb_In _ _ H (bc_arch bc) (in_all_archs _)) as Hsub.
-    exact (tested_entry_avail pred_defs bc avail c Hm Hg (bc_arch bc) eq_refl f (fsubset_incl _ _ Hsub f Hf)).
-  - intros Hstd Hneed. apply forallb_forall. intros x Hx. rewrite pout_eval_pouts.
-    pose proof (forallb_In _ _ slots_complete_reflect c Hc) as H. cbv zeta in H.
-    pose proof (forallb_In _ _ H x Hx) as Hx'.
-    unfold eval_pred.
-    destruct (find (fun d => pred_eqb (pd_pred d) x) pred_defs) as [d|] eqn:Ed; [|discriminate].
-    rewrite (guard_preds_compiled bc c x d Hc Hx Hcfg Ed). cbn [andb].
-    destruct (rt_sufficient_def d) as [l|] eqn:El; [|discriminate].
-    apply (eval_pred_def_std bc avail d l Hstd El).
-    intros f Hf. apply Hneed. exact (fsubset_incl _ _ Hx' f Hf).
+  exact (guards_generic feature_graph pred_defs dispatch_chain exports
+           chain_guards_reflect slots_need_reflect slots_complete_reflect guard_preds_compiled).
 Qed.
